@@ -95,8 +95,18 @@ pub fn fonts() -> DocSpec {
         ("Widths", Val::ints(&[500, 510, 520])),
         ("Encoding", Val::r(enc)),
     ]));
-    let content = b.add_stream(vec![], b"BT /F0 12 Tf (a) Tj /F1 10 Tf (b) Tj ET".to_vec());
-    let catalog = base(&mut b, vec![], Val::dict(vec![("Font", Val::dict(vec![("F0", Val::r(f0)), ("F1", Val::r(f1))]))]), Some(content));
+    // /W groups may come in any order: a higher segment first, then lower ones, then an overlapping one
+    let cid2 = b.add(Val::dict(vec![
+        ("Type", Val::name("Font")),
+        ("Subtype", Val::name("CIDFontType0")),
+        ("BaseFont", Val::name("G")),
+        ("CIDSystemInfo", Val::dict(vec![("Registry", Val::Str(b"Adobe".to_vec())), ("Ordering", Val::Str(b"Identity".to_vec())), ("Supplement", Val::Int(0))])),
+        ("FontDescriptor", Val::r(fd)),
+        ("W", Val::Arr(vec![Val::Int(100), Val::Arr(vec![Val::Int(500), Val::Int(600)]), Val::Int(10), Val::Arr(vec![Val::Int(700), Val::Int(800)]), Val::Int(50), Val::Int(60), Val::Int(650), Val::Int(99), Val::Arr(vec![Val::Int(1), Val::Int(2), Val::Int(3)])])),
+    ]));
+    let f2 = b.add(Val::dict(vec![("Type", Val::name("Font")), ("Subtype", Val::name("Type0")), ("BaseFont", Val::name("G")), ("Encoding", Val::name("Identity-H")), ("DescendantFonts", Val::Arr(vec![Val::r(cid2)]))]));
+    let content = b.add_stream(vec![], b"BT /F0 12 Tf (a) Tj /F1 10 Tf (b) Tj /F2 9 Tf (c) Tj ET".to_vec());
+    let catalog = base(&mut b, vec![], Val::dict(vec![("Font", Val::dict(vec![("F0", Val::r(f0)), ("F1", Val::r(f1)), ("F2", Val::r(f2))]))]), Some(content));
     finish_classic(b, catalog)
 }
 
@@ -299,6 +309,61 @@ pub fn encrypt_v4() -> DocSpec {
     b.finish(catalog, &layout, &mut rng)
 }
 
+/// a page tree that is a DAG: every node lists its only child four times and claims one page more
+/// than exist, 14 levels deep (a look-up that retried siblings after a failed descent would visit
+/// 4^14 nodes); plus two sibling subtrees with huge /Count values
+pub fn dag_pages() -> DocSpec {
+    let mut b = Builder::new();
+    let catalog = b.reserve();
+    let depth = 14;
+    let nodes: Vec<u32> = (0..=depth).map(|_| b.reserve()).collect();
+    let leaf = b.add(Val::dict(vec![("Type", Val::name("Page")), ("Parent", Val::r(nodes[depth])), ("MediaBox", rect(0, 0, 10, 10)), ("Resources", Val::dict(vec![]))]));
+    let big1 = b.reserve();
+    let big2 = b.reserve();
+    let mut count: i64 = 2; // the bottom node claims 2 pages and has one
+    for i in (0..=depth).rev() {
+        let kids = if i == depth { vec![Val::r(leaf)] } else { vec![Val::r(nodes[i + 1]); 4] };
+        if i < depth {
+            count = (count * 4).min(2_000_000_000);
+        }
+        let mut kids = kids;
+        let mut c = count;
+        if i == 0 {
+            kids.push(Val::r(big1));
+            kids.push(Val::r(big2));
+            c = 2_000_000_000;
+        }
+        let mut d = vec![("Type", Val::name("Pages")), ("Kids", Val::Arr(kids)), ("Count", Val::Int(c))];
+        if i > 0 {
+            d.push(("Parent", Val::r(nodes[i - 1])));
+        }
+        b.put(nodes[i], Val::dict(d));
+    }
+    for big in [big1, big2] {
+        b.put(big, Val::dict(vec![("Type", Val::name("Pages")), ("Parent", Val::r(nodes[0])), ("Kids", Val::Arr(vec![])), ("Count", Val::Int(2147483647))]));
+    }
+    b.put(catalog, Val::dict(vec![("Type", Val::name("Catalog")), ("Pages", Val::r(nodes[0]))]));
+    finish_classic(b, catalog)
+}
+
+/// annotations with appearance dictionaries (normal appearance as a stream and as a sub-dictionary
+/// of states), a widget field, a link with a destination
+pub fn annots() -> DocSpec {
+    let mut b = Builder::new();
+    let catalog = b.reserve();
+    let pages = b.reserve();
+    let page = b.reserve();
+    let ap_stream = b.add_stream(vec![("Type".into(), Val::name("XObject")), ("Subtype".into(), Val::name("Form")), ("BBox".into(), rect(0, 0, 10, 10))], b"0 0 m 1 1 l S".to_vec());
+    let ap_states = b.add(Val::dict(vec![("On", Val::r(ap_stream)), ("Off", Val::r(ap_stream))]));
+    let a1 = b.add(Val::dict(vec![("Type", Val::name("Annot")), ("Subtype", Val::name("Stamp")), ("Rect", rect(0, 0, 10, 10)), ("AP", Val::dict(vec![("N", Val::r(ap_stream)), ("R", Val::r(ap_stream))])), ("P", Val::r(page))]));
+    let a2 = b.add(Val::dict(vec![("Type", Val::name("Annot")), ("Subtype", Val::name("Widget")), ("FT", Val::name("Btn")), ("T", Val::Str(b"cb".to_vec())), ("Rect", rect(0, 0, 10, 10)), ("AP", Val::dict(vec![("N", Val::r(ap_states)), ("D", Val::r(ap_states))])), ("AS", Val::name("On"))]));
+    let a3 = b.add(Val::dict(vec![("Type", Val::name("Annot")), ("Subtype", Val::name("Link")), ("Rect", rect(0, 0, 10, 10)), ("Dest", Val::Arr(vec![Val::r(page), Val::name("XYZ"), Val::Int(0), Val::Int(0), Val::Int(0)])), ("Border", Val::ints(&[0, 0, 1]))]));
+    b.put(page, Val::dict(vec![("Type", Val::name("Page")), ("Parent", Val::r(pages)), ("MediaBox", rect(0, 0, 100, 100)), ("Resources", Val::dict(vec![])), ("Annots", Val::Arr(vec![Val::r(a1), Val::r(a2), Val::r(a3)]))]));
+    b.put(pages, Val::dict(vec![("Type", Val::name("Pages")), ("Kids", Val::Arr(vec![Val::r(page)])), ("Count", Val::Int(1))]));
+    b.put(catalog, Val::dict(vec![("Type", Val::name("Catalog")), ("Pages", Val::r(pages)), ("AcroForm", Val::dict(vec![("Fields", Val::Arr(vec![Val::r(a2)]))]))]));
+    finish_classic(b, catalog)
+}
+
 pub fn rich_all() -> DocSpec {
     let mut rng = Rng::new(7);
     families::rich(&mut rng, &families::RichOpts::all(), &Layout::classic())
@@ -316,6 +381,8 @@ pub fn all() -> Vec<(&'static str, DocSpec)> {
         ("xref_fields_stream_first", xref_fields(true)),
         ("encrypt", encrypt()),
         ("encrypt_v4", encrypt_v4()),
+        ("dag_pages", dag_pages()),
+        ("annots", annots()),
         ("rich", rich_all()),
     ]
 }
